@@ -88,8 +88,11 @@ class Run:
             self.hp = self.nchild  # the "current code" differs per incarnation
             gcmode = self.rng.choice(['default', 'default', 'off', 'aggressive'])
             self.stats[f'gc:{gcmode}'] += 1
+            scheduler = self.rng.choice(['synchronous', 'synchronous', 'threads', 'processes'])
+            self.stats[f'scheduler:{scheduler}'] += 1
             self.child = boxmod.Child(self.box.root, OPTABLE, self.seed * 1009 + self.nchild,
-                                      env={'LC_LOG': self.logfile, 'LC_HP': str(self.hp), 'LC_GC': gcmode})
+                                      env={'LC_LOG': self.logfile, 'LC_HP': str(self.hp), 'LC_GC': gcmode,
+                                           'LC_SCHEDULER': scheduler})
             self.stats['incarnations'] += 1
         return self.child
 
@@ -270,6 +273,7 @@ class Run:
         where = (f'op{idx} {kind} {target} generation {"latest=" if op["gen"] is None else ""}{generation} '
                  f'(incarnation {self.nchild + (0 if self.child and self.child.alive else 1)})')
         pause = None
+        interleaved = False
         if op.get('interleave') is not None:
             nstates = self.nstates.get(target, 1)
             pause = {'at': 1 + int(op['interleave'] * nstates), 'match': ['.bin']}
@@ -291,13 +295,39 @@ class Run:
             self.model[target].append(new)
             res = child.resume()
             where += f' [a training committed generation {len(self.model[target])} between its state loads]'
+            interleaved = True
         try:
             if not res.ok:
                 raise base.Violation('action-failed', f'{where}: {res.value}', mode=kind)
-            if res.value['generation'] != generation:
-                raise base.Violation('wrong-generation', f'{where}: loaded generation {res.value["generation"]}',
-                                     mode=kind)
-            self.check_load(where, target, generation, res.value, kind)
+            if interleaved and op['gen'] is None:
+                # "latest" may legitimately resolve before or after the concurrent commit - but to ONE generation for
+                # every actor of the action (what the action reports afterwards is not what counts: what was loaded is)
+                verdicts = {}
+                for cand in (generation, generation + 1):
+                    try:
+                        self.check_load(where, target, cand, res.value, kind)
+                        verdicts[cand] = None
+                        break
+                    except base.Violation as err:
+                        verdicts[cand] = err
+                if all(v is not None for v in verdicts.values()):
+                    per_actor = {}
+                    for rec in res.value['log']:
+                        if rec.get('event') == 'apply' and rec.get('state') and rec['actor'] in set(self.persistent(target)):
+                            for cand in (generation, generation + 1):
+                                if rec['state']['chain'] == self.model[target][cand - 1].get(rec['actor']):
+                                    per_actor.setdefault(rec['actor'], set()).add(cand)
+                    gens_seen = set().union(*per_actor.values()) if per_actor else set()
+                    if len(gens_seen) > 1 and all(per_actor.values()):
+                        raise base.Violation('mixed-generations', f'{where}: the actors of ONE action received states of '
+                                                                  f'different generations: {({a: sorted(g) for a, g in per_actor.items()})}',
+                                             mode=kind)
+                    raise verdicts[generation]
+            else:
+                if res.value['generation'] != generation:
+                    raise base.Violation('wrong-generation', f'{where}: loaded generation {res.value["generation"]}',
+                                         mode=kind)
+                self.check_load(where, target, generation, res.value, kind)
         except base.Violation as err:
             # a listed finding does not end the history: loading actions change nothing, the model stays in sync
             vio = {**err.as_dict(), 'unanchored': lc.unanchored(self.history['releases'][target])}
